@@ -151,7 +151,71 @@ def has_kind(g, kind):
     return bool(found)
 
 
-# ---------------------------------------------------------------- suite
+# ---------------------------------------------------------------- helpers
+def _rows(res, ren=None, dedup=False):
+    rows = []
+    for b in res.bindings:
+        row = []
+        for k, v in b.items():
+            vid = var_id(k)
+            if ren is not None:
+                vid = ren[vid]
+            row.append([vid, term_id(v)])
+        rows.append(sorted(row))
+    rows = sorted(rows)
+    if dedup:
+        out = []
+        for r in rows:
+            if not out or out[-1] != r:
+                out.append(r)
+        rows = out
+    return {"sel": rows}
+
+
+def _q(store, text, ren=None, dedup=False, **kw):
+    try:
+        return _rows(store.query(text, **kw), ren, dedup)
+    except Exception as e:  # noqa: BLE001
+        return {"err": type(e).__name__}
+
+
+def _expr_vars(q):
+    """variables mentioned by FILTER / BIND expressions anywhere"""
+    out = set()
+
+    def walk_e(e):
+        if e[0] in ("var", "bound"):
+            out.add(e[1])
+        elif e[0] in ("and", "or"):
+            walk_e(e[1]), walk_e(e[2])
+        elif e[0] == "not":
+            walk_e(e[1])
+        elif e[0] == "cmp":
+            walk_e(e[2]), walk_e(e[3])
+
+    def f(h):
+        for x in h[1]:
+            if x[0] in ("filter", "bind"):
+                walk_e(x[1])
+        return h
+    map_groups(q, f)
+    return out
+
+
+def c_group(base, vs, same, kind):
+    return ("{| g_base := " + base + "; g_vars := " + clist(vs) + f"; g_same := {cN(same)}; g_kind := {kind} |}}")
+
+
+def gen_select_base(c04suite, rng, i):
+    while True:
+        b = c04suite.gen(rng, i)
+        if b["form"] == "select":
+            break
+    b["proj"] = None
+    return b
+
+
+# ---------------------------------------------------------------- suite 1: rewritings
 class C15(Suite):
     name = "variants"
     imports = "From RV Require Import Sparql.Variants.\nSet Printing Width 1000000."
@@ -162,7 +226,7 @@ class C15(Suite):
     spec = "spec_ok15"
     kf = "kf15"
     kf_ids = {1: "F-C15-1", 2: "F-C15-2"}
-    corr = "Graph.query / Dataset.query, prepareQuery + Graph.query(prepared), SPARQLProcessor.query, evaluate.evalQuery (initBindings), algebra.reorderTriples/analyse, back ends Memory / SimpleMemory / AuditableStore / ReadOnlyGraphAggregate"
+    corr = "Graph.query / Dataset.query, evaluate.evalQuery (initBindings), algebra.reorderTriples/analyse/translate, sparql.FrozenDict (hash/eq of solutions under DISTINCT and the hash join)"
     quick_n = 300
     thorough_n = 3000
     timeout_s = 20.0
@@ -170,14 +234,10 @@ class C15(Suite):
     def __init__(self):
         self.base = C04()
 
-    # case = {"base": c04case (SELECT), "perm": q, "swap": q, "ren": {"map": {v: w}, "q": q},
-    #         "init": None | {"var": v, "term": t}, "alt": [[s,p,o]...] (default graph of the alternate data)}
+    # case = {"base": c04case (SELECT [DISTINCT] *), "perm": q, "swap": q, "ren": {"map": {v: w}, "q": q},
+    #         "init": None | {"var": v, "term": t}, "dupprefix": bool}
     def gen(self, rng, i):
-        while True:
-            b = self.base.gen(rng, i)
-            if b["form"] == "select":
-                break
-        b["proj"] = None
+        b = gen_select_base(self.base, rng, i)
         q = b["q"]
         nv = max([abs(v) for v in _all_vars(q)] + [1])
         vs = list(range(1, nv + 2))
@@ -189,10 +249,7 @@ class C15(Suite):
                 "swap": swap_operands(q, rng),
                 "ren": {"map": ren, "q": rename_ast(q, {int(k): v for k, v in ren.items()})},
                 "init": None,
-                "dupprefix": rng.random() < 0.08 and "<http://e/" in r_group(q),
-                "alt": None}
-        alt = [t for t in b["default"] if rng.random() < 0.5] + ([[1, 4, 2]] if rng.random() < 0.5 else [])
-        case["alt"] = sorted([list(t) for t in {tuple(t) for t in alt}])
+                "dupprefix": rng.random() < 0.08 and "<http://e/" in r_group(q)}
         # initBindings: a variable of the outermost BGP, no sub-query anywhere
         first = q[1][0]
         if first[0] == "bgp" and not has_kind(q, "sub") and rng.random() < 0.7:
@@ -203,28 +260,6 @@ class C15(Suite):
                     case["init"] = {"var": rng.choice(cands), "term": rng.choice(terms)}
         return case
 
-    # ------------------------------------------------------------ implementation
-    def _rows(self, res, ren=None):
-        rows = []
-        for b in res.bindings:
-            row = []
-            for k, v in b.items():
-                vid = var_id(k)
-                if ren is not None:
-                    vid = ren[vid]
-                row.append([vid, term_id(v)])
-            rows.append(sorted(row))
-        return {"sel": sorted(rows)}
-
-    def _q(self, store, text, ren=None, **kw):
-        try:
-            return self._rows(store.query(text, **kw), ren)
-        except Exception as e:  # noqa: BLE001
-            return {"err": type(e).__name__}
-
-    def variant_case(self, b, q):
-        return dict(b, q=q)
-
     def run_impl(self, case):
         b = case["base"]
         text = render(b)
@@ -234,69 +269,23 @@ class C15(Suite):
             except Exception as e:  # noqa: BLE001
                 return [[{"err": "unmodelled: " + type(e).__name__}]]
         store = self.base.build(b)
-        g1 = [self._q(store, text)]
-        # (a) (b) (c): own algebra
-        g1.append(self._q(store, render(dict(b, q=case["perm"]))))
-        g1.append(self._q(store, render(dict(b, q=case["swap"]))))
+        g1 = [_q(store, text)]
+        g1.append(_q(store, render(dict(b, q=case["perm"]))))
+        g1.append(_q(store, render(dict(b, q=case["swap"]))))
         inv = {w: int(v) for v, w in case["ren"]["map"].items()}
-        g1.append(self._q(store, render(dict(b, q=case["ren"]["q"])), ren=inv))
-        # (d) prefix spellings
-        g1.append(self._q(store, "PREFIX e: <http://e/> SELECT * WHERE " + _prefixed(b["q"], "e:", "e:")))
-        g1.append(self._q(store, "BASE <http://e/> SELECT * WHERE " + r_group(b["q"]).replace("<http://e/", "<")))
-        # (f) prepared query, three evaluations on alternating graphs
-        alt_case = dict(b, default=case["alt"], named=[[n, []] for n, _ in b["named"]])
-        alt = self.base.build(alt_case)
-        g3 = [self._q(alt, text)]
-        try:
-            pq = prepareQuery(text)
-            g1.append(self._q(store, pq))
-            g3.append(self._q(alt, pq))
-            g1.append(self._q(store, pq))
-        except Exception as e:  # noqa: BLE001
-            g1.append({"err": type(e).__name__})
-            g3.append({"err": type(e).__name__})
-            g1.append({"err": type(e).__name__})
-        # (g) back ends
-        for st in self.backends(b):
-            g1.append(self._q(st, text))
+        g1.append(_q(store, render(dict(b, q=case["ren"]["q"])), ren=inv))
         groups = [g1]
-        # (e) initBindings against a VALUES row
         if case["init"]:
             v, t = case["init"]["var"], case["init"]["term"]
             qv = ["group", b["q"][1] + [["values", [v], [[t]]]]]
-            gv = [self._q(store, render(dict(b, q=qv))),
-                  self._q(store, text, initBindings={Variable(f"v{v}"): term(t)})]
-            groups.append(gv)
-        groups.append(g3)
+            groups.append([_q(store, render(dict(b, q=qv))),
+                           _q(store, text, initBindings={Variable(f"v{v}"): term(t)})])
         if case.get("dupprefix"):
-            # two prefixes declared for one namespace, both used
-            groups.append([g1[0], self._q(store, "PREFIX x: <http://e/> PREFIX : <http://e/> SELECT * WHERE "
-                                          + _prefixed(b["q"], "x:", ":"))])
+            mod = (b.get("modifier") + " ") if b.get("modifier") else ""
+            groups.append([g1[0], _q(store, "PREFIX x: <http://e/> PREFIX : <http://e/> SELECT " + mod + "* WHERE "
+                                     + _prefixed(b["q"], "x:", ":"))])
         return groups
 
-    def backends(self, b):
-        out = []
-        if b["ds"]:
-            return out
-        triples = [tuple(term(x) for x in t) for t in b["default"]]
-        g = Graph(store=SimpleMemory())
-        for t in triples:
-            g.add(t)
-        out.append(g)
-        g = Graph(store=AuditableStore(Memory()))
-        for t in triples:
-            g.add(t)
-        out.append(g)
-        m1, m2 = Graph(), Graph()
-        for i, t in enumerate(triples):
-            (m1 if i % 2 == 0 else m2).add(t)
-        out.append(ReadOnlyGraphAggregate([m1, m2]))
-        return out
-
-    def n_same(self, b):
-        return 2 + 2 + (0 if b["ds"] else 3)
-
-    # ------------------------------------------------------------ Coq text
     def coq_case(self, case):
         b = case["base"]
         base = self.base.coq_case(b)
@@ -306,16 +295,13 @@ class C15(Suite):
             ctuple(self.base.coq_case(dict(b, q=case["swap"])), "[]"),
             ctuple(self.base.coq_case(dict(b, q=case["ren"]["q"])), clist(ctuple(cN(a), cN(c)) for a, c in inv)),
         ]
-        groups = ["{| g_base := " + base + "; g_vars := " + clist(vs) + f"; g_same := {cN(self.n_same(b))}; g_pushed := [] |}}"]
+        groups = [c_group(base, vs, 0, "GNormal")]
         if case["init"]:
             v, t = case["init"]["var"], case["init"]["term"]
             qv = ["group", b["q"][1] + [["values", [v], [[t]]]]]
-            groups.append("{| g_base := " + self.base.coq_case(dict(b, q=qv)) + "; g_vars := []; g_same := 1%N; g_pushed := "
-                          + clist([cN(v)]) + " |}")
-        alt_case = dict(b, default=case["alt"], named=[[n, []] for n, _ in b["named"]])
-        groups.append("{| g_base := " + self.base.coq_case(alt_case) + "; g_vars := []; g_same := 1%N; g_pushed := [] |}")
+            groups.append(c_group(self.base.coq_case(dict(b, q=qv)), [], 0, "(GInit " + clist([cN(v)]) + ")"))
         if case.get("dupprefix"):
-            groups.append("{| g_base := " + base + "; g_vars := []; g_same := 1%N; g_pushed := [99%N] |}")
+            groups.append(c_group(base, [], 0, "GDupPrefix"))
         return clist(groups)
 
     def coq_obs(self, obs):
@@ -325,13 +311,13 @@ class C15(Suite):
         return [[{"err": "timeout"}]]
 
     def nontrivial(self, case, obs):
-        return len(obs) > 1 and any(o.get("sel") for o in obs[0])
+        return bool(obs) and any(o.get("sel") for o in obs[0])
 
     def features(self, case, obs):
-        f = {"with_initBindings": int(bool(case["init"])), "dataset": int(case["base"]["ds"]),
-             "observations": sum(len(g) for g in obs),
-             "nonempty": int(len(obs) > 1 and bool(obs[0][0].get("sel")))}
-        return f
+        return {"with_initBindings": int(bool(case["init"])), "dataset": int(case["base"]["ds"]),
+                "distinct": int(case["base"].get("modifier") == "DISTINCT"),
+                "observations": sum(len(g) for g in obs),
+                "nonempty": int(bool(obs) and bool(obs[0][0].get("sel")))}
 
     def shrink(self, case):
         b = case["base"]
@@ -351,9 +337,177 @@ class C15(Suite):
                 if first[0] != "bgp" or -c["init"]["var"] not in [t for tp in first[1] for t in tp]:
                     c["init"] = None
             yield c
-        # keep the query, make one variant equal to the base
         yield dict(case, perm=b["q"])
         yield dict(case, swap=b["q"])
+
+
+# ---------------------------------------------------------------- suite 2: one query, many ways of running it
+class C15Same(Suite):
+    """Observations of ONE algebra: spellings, back ends, DISTINCT/REDUCED against the de-duplicated plain
+    answer, and a sequence of evaluations of one prepared Query object - with and without initBindings, on
+    two graphs - each compared with freshly parsed text given the same initBindings.  No finding applies
+    here (no trigger predicate): whatever the evaluator does, it must do the same each time."""
+    name = "same_query"
+    imports = "From RV Require Import Sparql.Variants.\nSet Printing Width 1000000."
+    case_ty = "vcase"
+    obs_ty = "vobs"
+    model = "model_obs15"
+    oeq = "obs_eqb15"
+    spec = "spec_ok15"
+    corr = ("prepareQuery + Graph.query(prepared, initBindings=...) repeatedly on one Query object, SPARQLProcessor.query, "
+            "sparql.FrozenBindings.forget/FrozenDict.__hash__, evalDistinct/evalReduced, back ends Memory / SimpleMemory / "
+            "AuditableStore / ReadOnlyGraphAggregate")
+    quick_n = 250
+    thorough_n = 2500
+    timeout_s = 30.0
+
+    def __init__(self):
+        self.base = C04()
+
+    # case = {"base": c04case, "alt": triples, "seq": [[graph 0|1, None | [var, term]] ...]}
+    def gen(self, rng, i):
+        r = rng.random()
+        if r < 0.3:
+            b = self.gen_nested_filter(rng, i)
+        else:
+            b = gen_select_base(self.base, rng, i)
+        q = b["q"]
+        alt = [t for t in b["default"] if rng.random() < 0.5] + ([[1, 4, 2]] if rng.random() < 0.5 else [])
+        alt = sorted([list(t) for t in {tuple(t) for t in alt}])
+        allv = sorted(_all_vars(q)) or [1]
+        ev = sorted(_expr_vars(q))
+        terms = sorted({t[0] for t in b["default"]} | {t[2] for t in b["default"]}) or [1]
+
+        def init():
+            v = rng.choice(ev) if ev and rng.random() < 0.75 else rng.choice(allv)
+            return [v, rng.choice(terms)]
+
+        i1, i2 = init(), init()
+        seq = [[0, None], [0, i1], [0, None], [1, None], [1, i2], [0, None]]
+        if rng.random() < 0.3:
+            seq.insert(2, [0, i2])
+        return {"base": b, "alt": alt, "seq": seq}
+
+    def gen_nested_filter(self, rng, i):
+        """{ ?s :p ?v . { ?s :q ?w FILTER/BIND mentioning ?v } }: ?v is out of scope in the inner group"""
+        b = gen_select_base(self.base, rng, i)
+        ts = b["default"]
+        t1 = rng.choice(ts)
+        same_s = [t for t in ts if t[0] == t1[0]] or ts
+        t2 = rng.choice(same_s)
+        const = rng.choice([t1[2]] + [t[2] for t in ts])
+        op = rng.choice(["=", "=", "!=", "<", ">"])
+        if rng.random() < 0.6:
+            inner = [["bgp", [[-1, t2[1], -3]]], ["filter", ["cmp", op, ["var", 2], ["con", const]]]]
+        else:
+            e = ["var", 2] if rng.random() < 0.5 else ["cmp", op, ["var", 2], ["con", const]]
+            inner = [["bgp", [[-1, t2[1], -3]]], ["bind", e, 4]]
+        b["q"] = ["group", [["bgp", [[-1, t1[1], -2]]], ["group", inner]]]
+        b["modifier"] = None
+        return b
+
+    def stores(self, case):
+        b = case["base"]
+        alt_case = dict(b, default=case["alt"], named=[[n, []] for n, _ in b["named"]])
+        return [self.base.build(b), self.base.build(alt_case)], [b, alt_case]
+
+    def backends(self, b):
+        out = []
+        if b["ds"]:
+            return out
+        triples = [tuple(term(x) for x in t) for t in b["default"]]
+        g = Graph(store=SimpleMemory())
+        for t in triples:
+            g.add(t)
+        out.append(g)
+        g = Graph(store=AuditableStore(Memory()))
+        for t in triples:
+            g.add(t)
+        out.append(g)
+        m1, m2 = Graph(), Graph()
+        for k, t in enumerate(triples):
+            (m1 if k % 2 == 0 else m2).add(t)
+        out.append(ReadOnlyGraphAggregate([m1, m2]))
+        return out
+
+    def run_impl(self, case):
+        b = case["base"]
+        text = render(b)
+        try:
+            translate_query(text)
+            translate_query(render(dict(b, modifier="DISTINCT")))
+        except Exception as e:  # noqa: BLE001
+            return [[{"err": "unmodelled: " + type(e).__name__}]]
+        (store, alt), _ = self.stores(case)
+        mod = (b.get("modifier") + " ") if b.get("modifier") else ""
+        # group A: the same algebra, spelled and stored differently
+        ga = [_q(store, text),
+              _q(store, "PREFIX e: <http://e/> SELECT " + mod + "* WHERE " + _prefixed(b["q"], "e:", "e:")),
+              _q(store, "BASE <http://e/> SELECT " + mod + "* WHERE " + r_group(b["q"]).replace("<http://e/", "<"))]
+        for st in self.backends(b):
+            ga.append(_q(st, text))
+        # group B: DISTINCT = REDUCED (as sets) = the plain answer de-duplicated by the harness
+        gb = [_q(store, render(dict(b, modifier="DISTINCT"))),
+              _q(store, render(dict(b, modifier="REDUCED")), dedup=True),
+              _q(store, render(dict(b, modifier=None)), dedup=True)]
+        groups = [ga, gb]
+        # the sequence on ONE prepared object
+        try:
+            pq = prepareQuery(text)
+        except Exception as e:  # noqa: BLE001
+            return [[{"err": "prepare: " + type(e).__name__}]]
+        sts = [store, alt]
+        for gi, ib in case["seq"]:
+            kw = {} if ib is None else {"initBindings": {Variable(f"v{ib[0]}"): term(ib[1])}}
+            fresh = _q(sts[gi], text, **kw)
+            prep = _q(sts[gi], pq, **kw)
+            groups.append([fresh, prep])
+        return groups
+
+    def coq_case(self, case):
+        b = case["base"]
+        _, cs = self.stores(case)
+        base = self.base.coq_case(b)
+        n_same = 2 + (0 if b["ds"] else 3)
+        groups = [c_group(base, [], n_same, "GNormal"),
+                  c_group(self.base.coq_case(dict(b, modifier="DISTINCT")), [], 2, "GNormal")]
+        coq_by_graph = [base, self.base.coq_case(cs[1])]
+        for gi, ib in case["seq"]:
+            if ib is None:
+                groups.append(c_group(coq_by_graph[gi], [], 1, "GNormal"))
+            else:
+                groups.append(c_group(coq_by_graph[gi], [], 0, "GNoModel"))
+        return clist(groups)
+
+    def coq_obs(self, obs):
+        return clist(clist(self.base.coq_obs(o) for o in g) for g in obs)
+
+    def on_timeout(self, case):
+        return [[{"err": "timeout"}]]
+
+    def nontrivial(self, case, obs):
+        return len(obs) > 2 and any(o.get("sel") for g in obs for o in g)
+
+    def features(self, case, obs):
+        f = {"dataset": int(case["base"]["ds"]), "steps": len(case["seq"]),
+             "observations": sum(len(g) for g in obs),
+             "init_answers_nonempty": sum(1 for (gi, ib), g in zip(case["seq"], obs[2:]) if ib is not None and g[0].get("sel")),
+             "nonempty": int(bool(obs) and bool(obs[0][0].get("sel")))}
+        return f
+
+    def shrink(self, case):
+        b = case["base"]
+        for i in range(len(b["default"])):
+            yield dict(case, base=dict(b, default=b["default"][:i] + b["default"][i + 1:]))
+        for i in range(len(case["alt"])):
+            yield dict(case, alt=case["alt"][:i] + case["alt"][i + 1:])
+        for i in range(len(case["seq"])):
+            if len(case["seq"]) > 1:
+                yield dict(case, seq=case["seq"][:i] + case["seq"][i + 1:])
+        if b.get("modifier"):
+            yield dict(case, base=dict(b, modifier=None))
+        for q in c04.shrink_group(b["q"]):
+            yield dict(case, base=dict(b, q=q))
 
 
 def _all_vars(g):
@@ -412,23 +566,31 @@ def _prefixed(q, p1, p2):
     return "".join(out)
 
 
-SUITES = [C15()]
+SUITES = [C15(), C15Same()]
 
 TRUSTED = [
     "Coq 8.16.1 kernel and vm_compute",
     "harness/c15.py: the rewritings of the query AST (permutation, operand swap, renaming and its inverse applied to the answers), "
-    "harness/c04.py (rendering, algebra conversion, observation)",
+    "the de-duplication of the plain answer used as the reference for DISTINCT/REDUCED (on the harness's own canonical rows, never on "
+    "rdflib's hash/eq), harness/c04.py (rendering, algebra conversion, observation)",
     "coq/Sparql/Variants.v: equality of all observations of a group as the reading of 'does not depend on how the query is written, prepared or stored'",
 ]
 ASSUMPTIONS = [
     "prefix spellings, prepared-query re-evaluation, back ends and initBindings have no counterpart in the pure model: for these the check "
-    "is conformance testing (all observed answers equal, and equal to the model's answer for the one algebra); state leaking between "
-    "evaluations of one prepared Query object cannot be exhibited by a pure function",
-    "initBindings is compared with an added VALUES row only for a variable of the outermost basic graph pattern of a query without sub-SELECT",
+    "is conformance testing (all observed answers of a group equal, and equal to the model's answer where the model has one); state leaking "
+    "between evaluations of one prepared Query object cannot be exhibited by a pure function",
+    "initBindings is compared with an added VALUES row only for a variable of the outermost basic graph pattern of a query without sub-SELECT; "
+    "in the prepared-query sequences any variable of the query may be given, because there prepared and freshly parsed text get the SAME initBindings",
+    "REDUCED is only required to have the same SET of solutions as DISTINCT (its cardinalities are implementation-defined and order-dependent in rdflib)",
     "ReadOnlyGraphAggregate is exercised with disjoint member graphs and without property paths (finding F16 concerns paths, model of C11)",
-    "SELECT * queries only; the vocabulary of C04",
+    "SELECT [DISTINCT] * queries only; the vocabulary of C04",
 ]
-RULE = ("every generated C04 SELECT case, posed (a) with the triple patterns of every BGP shuffled, (b) with union branches and one pair of adjacent "
-        "join operands per group swapped, (c) with variables renamed by a random permutation, (d) with two prefix spellings, (e) with initBindings "
-        "against a VALUES row, (f) as a prepared query evaluated on the graph, on an alternate graph and on the graph again, (g) on SimpleMemory, "
-        "AuditableStore(Memory) and a ReadOnlyGraphAggregate of two disjoint graphs; non-trivial = some variant returns a solution")
+RULE = ("suite variants: every generated C04 SELECT case (12 % DISTINCT; 10 % 'twin unions' whose two branches hold the same triple patterns "
+        "grouped and ordered differently, so that each solution arrives twice with its variables bound in different orders), posed (a) with "
+        "the triple patterns of every BGP shuffled, (b) with union branches and one pair of adjacent join operands per group swapped, (c) with "
+        "variables renamed by a random permutation, (e) with initBindings against a VALUES row, and in 8 % with two prefixes for one namespace; "
+        "suite same_query (no trigger predicate): prefix/BASE spellings, SimpleMemory / AuditableStore(Memory) / ReadOnlyGraphAggregate of two "
+        "disjoint graphs, DISTINCT and REDUCED against the harness-de-duplicated plain answer, and a sequence of 6-7 evaluations of ONE "
+        "prepareQuery object on two graphs, with no / one / another initBindings (30 % of the cases are nested-group FILTER/BIND queries whose "
+        "expression mentions a variable that is out of scope there), each step compared with freshly parsed text given the same initBindings; "
+        "non-trivial = some observation has a solution")
